@@ -66,6 +66,10 @@ def _mk():
     d["M0"] = pd.DataFrame({"a": [0.0, 0.5, 0.0, 0.5, 4.0, 4.5, 4.0, 4.5]})
     d["M1"] = pd.DataFrame({"a": [4.5, 0.5, 4.0, 0.0, 0.5, 4.5, 0.0, 4.0]})
     d["A+U"] = pd.concat([A, U])
+    # V continues A as well, but RESTATES only some of A's last rows (labels 5 and 7, with the values A already has there, so
+    # that "the old and the new data combined" is unambiguous) and skips label 6: the combined data are labels 0..9
+    d["V"] = pd.DataFrame({"a": [4.5, 4.5, 1.0, 0.0]}, index=pd.Index([5, 7, 8, 9]))
+    d["A+V"] = pd.DataFrame({"a": list(A["a"]) + [1.0, 0.0]})
     d["Ap+U"] = pd.concat([Ap, U])
     return d
 
@@ -354,6 +358,8 @@ def events_for(objs, cfg):
             ev.append(("transform", name, data[0]))
             ev.append(("tscores", name, data[1]))
             ev.append(("update", name, "U"))
+            if "A" in data:
+                ev.append(("update", name, "V"))
             if name not in referenced:  # re-binding a name other objects refer to is outside the model
                 ev.append(("clone", name))
         else:
@@ -502,10 +508,11 @@ class Explorer:
             else:
                 cont = False
         elif kind == "update":
-            newdata = {"A": "A+U", "Ap": "Ap+U", "A+U": "A+U", "Ap+U": "Ap+U"}[m.fitdata]
-            got = real(lambda: obj.update(DATA["U"]) and None)
+            ukey = ev[2]
+            newdata = {"A": "A+U", "Ap": "Ap+U", "A+U": "A+U", "Ap+U": "Ap+U"}[m.fitdata] if ukey == "U" else "A+V"
+            got = real(lambda: obj.update(DATA[ukey]) and None)
             if got[0] != "ok":
-                acc.violation("update-raised", case, f"{name}.update(U) after fit({m.fitdata}) -> {got}", key)
+                acc.violation("update-raised", case, f"{name}.update({ukey}) after fit({m.fitdata}) -> {got}", key)
                 cont = False
             else:
                 m.fitdata = newdata
@@ -513,7 +520,7 @@ class Explorer:
                 self.touch_shared(model, m, newdata)
                 gotp = real(lambda: self.call(obj, "fitted_params", None))
                 wantp = self.pristine(model, name, True, newdata, "fitted_params", None)
-                self.compare(case, key, gotp, wantp, f"fitted parameters after {name}.update(U) vs fit({newdata})")
+                self.compare(case, key, gotp, wantp, f"fitted parameters after {name}.update({ukey}) vs fit({newdata})")
         elif kind == "sfit":
             got = real(lambda: obj.fit(X) and None)
             if got[0] != "ok":
@@ -661,6 +668,8 @@ class Explorer:
             return True
         m = model[name]
         if kind == "update":
+            if ev[2] == "V":
+                return m.fitted and m.fitdata in ("A", "A+V")
             return m.fitted and m.fitdata in ("A", "Ap", "A+U", "Ap+U")
         if kind == "evalbad":
             return m.fitted and m.fitdata == "D" and not m.stale
